@@ -69,9 +69,52 @@ type c10D struct {
 	X  [4]byte  `parquet:"x"` // FIXED_LEN_BYTE_ARRAY(4)
 }
 
+// deeper nesting: required and optional leaves below two optional groups, below a repeated
+// group and below a required group (the leaf's own repetition type differs from what its
+// inherited levels say)
+type c10H struct {
+	Z int32  `parquet:"z"`
+	Q *int32 `parquet:"q,optional"`
+}
+
+type c10GG struct {
+	H *c10H `parquet:"h,optional"`
+	V int32 `parquet:"v"`
+}
+
+type c10N struct {
+	A int32  `parquet:"a"`
+	B *int32 `parquet:"b,optional"`
+}
+
+type c10E struct {
+	GG *c10GG `parquet:"gg,optional"` // gg.h.z required, max definition level 2; gg.h.q 3; gg.v 1
+	R  []c10G `parquet:"r"`           // repeated group: r.x (rep 1, def 2), r.y required (rep 1, def 1)
+	N  c10N   `parquet:"n"`           // required group: n.a required (def 0), n.b optional (def 1)
+	ID int64  `parquet:"id"`
+}
+
 // one optional column, for the L2 histories against the OptCol mirror
 type c10One struct {
 	A int64 `parquet:"a,optional"`
+}
+
+// … and the same column as a required / optional leaf of an optional group (null at levels below
+// the maximum)
+type c10NestG1 struct {
+	A int64 `parquet:"a"`
+}
+
+type c10Nest1 struct {
+	G *c10NestG1 `parquet:"g,optional"` // g.a: required leaf, max definition level 1
+}
+
+type c10NestG2 struct {
+	A *int64 `parquet:"a,optional"`
+}
+
+type c10Nest2 struct {
+	G *c10NestG2 `parquet:"g,optional"` // g.a: max definition level 2, null at levels 0 and 1
 }
 
 // ---------------------------------------------------------------- declarations and the oracle comparator
@@ -315,6 +358,7 @@ type c10Case struct {
 	Sorting   []c10Sort `json:"sorting"`
 	Batches   []int     `json:"batches"`
 	SortRun   int       `json:"sort_run_rows,omitempty"`
+	Flushes   []int     `json:"flush_after_batches,omitempty"` // sorting writer: Flush() after these Write calls (0-based)
 	Dedupe    bool      `json:"drop_duplicated_rows,omitempty"`
 	Extra     int       `json:"rows_written_after_first_sort"` // -1: single phase
 	Rows      []string  `json:"rows,omitempty"`                // canonical rows (Deconstruct), informational
@@ -551,6 +595,7 @@ func c10Run[T any](cs *c10Case, rows []T, extra []T) (res c10Result, in1, in2 []
 		in2 = append(in2, schema.Deconstruct(nil, &extra[i]))
 	}
 	sorting := parquet.SortingRowGroupConfig(parquet.SortingColumns(scols...))
+	var afterBatch func(k int) error // called after the k-th write call (sorting writer: explicit Flush)
 	batched := func(n int, write func(i, j int) error) (err error) {
 		defer func() {
 			if r := recover(); r != nil {
@@ -558,7 +603,7 @@ func c10Run[T any](cs *c10Case, rows []T, extra []T) (res c10Result, in1, in2 []
 			}
 		}()
 		i := 0
-		for _, b := range cs.Batches {
+		for k, b := range cs.Batches {
 			if i >= n {
 				break
 			}
@@ -567,6 +612,11 @@ func c10Run[T any](cs *c10Case, rows []T, extra []T) (res c10Result, in1, in2 []
 				return err
 			}
 			i = j
+			if afterBatch != nil {
+				if err := afterBatch(k); err != nil {
+					return err
+				}
+			}
 		}
 		if i < n {
 			return write(i, n)
@@ -661,6 +711,16 @@ func c10Run[T any](cs *c10Case, rows []T, extra []T) (res c10Result, in1, in2 []
 			out := new(bytes.Buffer)
 			w := parquet.NewSortingWriter[T](out, int64(cs.SortRun),
 				parquet.SortingWriterConfig(parquet.SortingColumns(scols...), parquet.DropDuplicatedRows(cs.Dedupe)))
+			afterBatch = func(k int) error {
+				for _, f := range cs.Flushes {
+					if f == k {
+						if err := w.Flush(); err != nil {
+							return fmt.Errorf("flush: %w", err)
+						}
+					}
+				}
+				return nil
+			}
 			if err := batched(len(rows), func(i, j int) error {
 				if cs.Container == "sortw-rows" {
 					defer l.reclaim()
@@ -1067,6 +1127,43 @@ func c10GenD(r *rand.Rand, n int, small bool, idBase int) []c10D {
 	return rows
 }
 
+func c10GenE(r *rand.Rand, n int, small bool, idBase int) []c10E {
+	rows := make([]c10E, n)
+	ngg, nh, nq, nb := c10NullPattern(r, n), c10NullPattern(r, n), c10NullPattern(r, n), c10NullPattern(r, n)
+	for i := range rows {
+		if !ngg[i] {
+			gg := &c10GG{V: pick(r, c10Ints, small)}
+			if !nh[i] {
+				h := &c10H{Z: pick(r, c10Ints, small)}
+				if !nq[i] {
+					v := pick(r, c10Ints, small)
+					h.Q = &v
+				}
+				gg.H = h
+			}
+			rows[i].GG = gg
+		}
+		for j := r.Intn(4); j > 0; j-- {
+			g := c10G{Y: pick(r, c10Ints, true)}
+			if r.Intn(3) > 0 {
+				v := pick(r, c10Ints, true)
+				g.X = &v
+			}
+			rows[i].R = append(rows[i].R, g)
+		}
+		rows[i].N.A = pick(r, c10Ints, small)
+		if !nb[i] {
+			v := pick(r, c10Ints, small)
+			rows[i].N.B = &v
+		}
+		rows[i].ID = int64(idBase + i)
+		if small && r.Intn(2) == 0 {
+			rows[i].ID = int64(r.Intn(2))
+		}
+	}
+	return rows
+}
+
 type c10TypeInfo struct {
 	name string
 	cols [][]string // candidate sorting columns; repeated ones last
@@ -1130,7 +1227,7 @@ func c10ExecUnguarded[T any](ctx *core.Ctx, cs *c10Case, rows, extra []T) {
 		}
 		nontrivial = nontrivial || (hasNull && hasVal)
 	}
-	ctx.Case(fmt.Sprintf("%s|%s|%v|%v|%d|%v|%d|%s", cs.Type, cs.Container, cs.Sorting, cs.Batches, cs.SortRun, cs.Dedupe, cs.Extra, strings.Join(cs.Rows, ";")), nontrivial)
+	ctx.Case(fmt.Sprintf("%s|%s|%v|%v|%d|%v|%v|%d|%s", cs.Type, cs.Container, cs.Sorting, cs.Batches, cs.SortRun, cs.Flushes, cs.Dedupe, cs.Extra, strings.Join(cs.Rows, ";")), nontrivial)
 	ctx.Hist("container", cs.Container)
 	ctx.Hist("rows", fmt.Sprint(len(rows)))
 	ctx.Hist("sorting-columns", fmt.Sprint(len(cs.Sorting)))
@@ -1144,6 +1241,12 @@ func c10ExecUnguarded[T any](ctx *core.Ctx, cs *c10Case, rows, extra []T) {
 			nf = "nulls-first"
 		}
 		ctx.Hist("sort-key", k.colKind()+" "+d+" "+nf)
+	}
+	if strings.HasPrefix(cs.Container, "sortw") {
+		ctx.Hist("sorting-writer-flush-calls", fmt.Sprint(min(len(cs.Flushes), 4)))
+	}
+	for _, k := range keys {
+		ctx.Hist("sort-key-levels", fmt.Sprintf("maxRep=%d maxDef=%d", k.maxRep, k.maxDef))
 	}
 	if cs.Extra >= 0 {
 		ctx.Hist("history", "sort,read,write,sort,read")
@@ -1190,6 +1293,16 @@ var c10Types = []c10TypeInfo{
 			}
 			c10Exec(ctx, cs, rows, extra)
 		}, replay: c10ReplayAs[c10D]},
+	{name: "E{gg {h {z; q *int32?}?; v}?; r []{x *int32?; y}; n {a; b *int32?}; id}",
+		cols: [][]string{{"gg", "h", "z"}, {"gg", "h", "q"}, {"gg", "v"}, {"n", "a"}, {"n", "b"}, {"id"}, {"r", "x"}, {"r", "y"}}, nrep: 2,
+		run: func(ctx *core.Ctx, cs *c10Case, r *rand.Rand, n int, small bool) {
+			rows := c10GenE(r, n, small, 1000)
+			var extra []c10E
+			if cs.Extra >= 0 {
+				extra = c10GenE(r, cs.Extra, small, 5000)
+			}
+			c10Exec(ctx, cs, rows, extra)
+		}, replay: c10ReplayAs[c10E]},
 }
 
 // c10ReplayFile runs one recorded case: a corpus file (a c10Case) or a replay file written by
@@ -1202,12 +1315,18 @@ func c10ReplayFile(ctx *core.Ctx, path string) {
 	}
 	var wrapped struct {
 		Detail struct {
-			Case *c10Case `json:"case"`
-			Len  *int     `json:"len"`
+			Case *c10Case    `json:"case"`
+			Cuts *c10CutCase `json:"cuts"`
+			Len  *int        `json:"len"`
 			Base *int32   `json:"base"`
 		} `json:"detail"`
 	}
 	cs := new(c10Case)
+	if json.Unmarshal(b, &wrapped) == nil && wrapped.Detail.Cuts != nil {
+		ctx.Hist("corpus", "replayed")
+		c10CutsRun(ctx, wrapped.Detail.Cuts, nil, nil)
+		return
+	}
 	if json.Unmarshal(b, &wrapped) == nil && wrapped.Detail.Case != nil {
 		cs = wrapped.Detail.Case
 	} else if json.Unmarshal(b, &wrapped) == nil && wrapped.Detail.Len != nil && wrapped.Detail.Base != nil {
@@ -1251,7 +1370,11 @@ func c10RandCase(r *rand.Rand, ti int, forceCols [][]int) (*c10Case, int, bool) 
 	for _, p := range perm[:min(nk, plain)] {
 		chosen = append(chosen, p)
 	}
-	if t.nrep > 0 && r.Intn(8) == 0 {
+	repOdds := 8
+	if t.nrep >= 2 {
+		repOdds = 4
+	}
+	if t.nrep > 0 && r.Intn(repOdds) == 0 {
 		chosen = append(chosen, plain+r.Intn(t.nrep))
 		r.Shuffle(len(chosen), func(i, j int) { chosen[i], chosen[j] = chosen[j], chosen[i] })
 	}
@@ -1270,6 +1393,17 @@ func c10RandCase(r *rand.Rand, ti int, forceCols [][]int) (*c10Case, int, bool) 
 		// (without sorting columns every row has the same, empty key; duplicate dropping is then
 		// applied per sort run only — degenerate, not generated)
 		cs.Dedupe = r.Intn(3) == 0 && len(cs.Sorting) > 0
+		// explicit Flush() calls between writes (also twice in a row: the second finds an empty buffer)
+		if r.Intn(3) == 0 {
+			for k := range cs.Batches {
+				if r.Intn(3) == 0 {
+					cs.Flushes = append(cs.Flushes, k)
+					if r.Intn(4) == 0 {
+						cs.Flushes = append(cs.Flushes, k)
+					}
+				}
+			}
+		}
 	case "gbuf", "gbuf-rows", "buffer", "buffer-rows", "rowbuf-rows":
 		if r.Intn(3) == 0 {
 			cs.Extra = []int{0, 1, 3, 9, 17}[r.Intn(5)]
@@ -1340,10 +1474,55 @@ func c10KernelOne(ctx *core.Ctx, n int, base int32, slack int, reqs *[]string, p
 	}
 }
 
-// one history on a single optional int64 column: typed writes (runs), row writes, Swap, Less, Page
+// the shape of the single column of an L2 history: its path, its maximum definition level, how a
+// row is made (level == maxDef: the value v; below: null at that level). flat: the leaf sits
+// directly under the root (the typed path then writes null / value *runs* through the kernels,
+// and the history records the runs); otherwise one op per row, null marks compared by sign.
+type c10Hist[T any] struct {
+	name   string
+	path   []string
+	maxDef int
+	flat   bool
+	mk     func(level int, v int64) T
+}
+
 func c10History(ctx *core.Ctx, r *rand.Rand, reqs *[]string, pend *[]func(string)) {
-	s := c10Sort{Path: []string{"a"}, Desc: r.Intn(2) == 0, NullsFirst: r.Intn(2) == 0}
-	buf := parquet.NewGenericBuffer[c10One](parquet.SortingRowGroupConfig(parquet.SortingColumns(s.column())))
+	c10HistoryOf(ctx, r, reqs, pend, c10Hist[c10One]{name: "flat", path: []string{"a"}, maxDef: 1, flat: true,
+		mk: func(level int, v int64) c10One {
+			if level == 1 {
+				return c10One{A: v}
+			}
+			return c10One{}
+		}})
+}
+
+func c10HistoryNested(ctx *core.Ctx, r *rand.Rand, reqs *[]string, pend *[]func(string)) {
+	if r.Intn(2) == 0 {
+		c10HistoryOf(ctx, r, reqs, pend, c10Hist[c10Nest1]{name: "required-in-optional-group", path: []string{"g", "a"}, maxDef: 1,
+			mk: func(level int, v int64) c10Nest1 {
+				if level == 1 {
+					return c10Nest1{G: &c10NestG1{A: v}}
+				}
+				return c10Nest1{}
+			}})
+		return
+	}
+	c10HistoryOf(ctx, r, reqs, pend, c10Hist[c10Nest2]{name: "optional-in-optional-group", path: []string{"g", "a"}, maxDef: 2,
+		mk: func(level int, v int64) c10Nest2 {
+			switch level {
+			case 2:
+				return c10Nest2{G: &c10NestG2{A: &v}}
+			case 1:
+				return c10Nest2{G: &c10NestG2{}}
+			}
+			return c10Nest2{}
+		}})
+}
+
+// one history on a single nullable int64 column: typed writes (runs), row writes, Swap, Less, Page
+func c10HistoryOf[T any](ctx *core.Ctx, r *rand.Rand, reqs *[]string, pend *[]func(string), h c10Hist[T]) {
+	s := c10Sort{Path: h.path, Desc: r.Intn(2) == 0, NullsFirst: r.Intn(2) == 0}
+	buf := parquet.NewGenericBuffer[T](parquet.SortingRowGroupConfig(parquet.SortingColumns(s.column())))
 	base := parquet.VerifBufferOf(buf)
 	schema := buf.Schema()
 	var ops []string
@@ -1353,15 +1532,31 @@ func c10History(ctx *core.Ctx, r *rand.Rand, reqs *[]string, pend *[]func(string
 	write := func() {
 		k := []int{1, 2, 3, 7, 8, 9, 10, 15, 16, 17, 18, 24, 25, 33, 64, 65, 70}[r.Intn(17)]
 		nulls := c10NullPattern(r, k)
-		batch := make([]c10One, k)
+		batch := make([]T, k)
+		vals := make([]int64, k)
+		levels := make([]int, k)
 		for i := range batch {
-			if !nulls[i] {
-				batch[i].A = int64(1 + r.Intn(6))
+			levels[i] = h.maxDef
+			if nulls[i] {
+				levels[i] = r.Intn(h.maxDef)
+			} else {
+				vals[i] = int64(1 + r.Intn(6))
 			}
+			batch[i] = h.mk(levels[i], vals[i])
 		}
 		typed := r.Intn(3) > 0
 		if typed {
 			buf.Write(batch)
+			ctx.Hist("history-op", "typed-write")
+		} else {
+			rows := make([]parquet.Row, k)
+			for i := range batch {
+				rows[i] = schema.Deconstruct(nil, &batch[i])
+			}
+			buf.WriteRows(rows)
+			ctx.Hist("history-op", "rows-write")
+		}
+		if typed && h.flat {
 			for i := 0; i < k; {
 				j := i
 				for j < k && nulls[j] == nulls[i] {
@@ -1371,26 +1566,21 @@ func c10History(ctx *core.Ctx, r *rand.Rand, reqs *[]string, pend *[]func(string
 					ops = append(ops, fmt.Sprintf("N:0:%d", j-i)) // one broadcastValueInt32 call
 				} else {
 					var vs []string
-					for _, b := range batch[i:j] {
-						vs = append(vs, fmt.Sprint(b.A))
+					for _, v := range vals[i:j] {
+						vs = append(vs, fmt.Sprint(v))
 					}
 					ops = append(ops, "v:"+strings.Join(vs, ";"))
 				}
 				i = j
 			}
-			ctx.Hist("history-op", "typed-write")
 		} else {
-			rows := make([]parquet.Row, k)
 			for i := range batch {
-				rows[i] = schema.Deconstruct(nil, &batch[i])
 				if nulls[i] {
-					ops = append(ops, "n:0:1")
+					ops = append(ops, fmt.Sprintf("n:%d:1", levels[i]))
 				} else {
-					ops = append(ops, fmt.Sprintf("v:%d", batch[i].A))
+					ops = append(ops, fmt.Sprintf("v:%d", vals[i]))
 				}
 			}
-			buf.WriteRows(rows)
-			ctx.Hist("history-op", "rows-write")
 		}
 		n += k
 	}
@@ -1464,6 +1654,16 @@ func c10History(ctx *core.Ctx, r *rand.Rand, reqs *[]string, pend *[]func(string
 		page()
 	}
 	rows, defs, _ := parquet.VerifOptionalRows(buf.ColumnBuffers()[0])
+	if !h.flat {
+		// how a null row is marked depends on the write path taken below the group (-1 or a
+		// broadcast byte pattern); the library and the model only test the sign
+		for i, x := range rows {
+			if x < 0 {
+				rows[i] = -1
+			}
+		}
+	}
+	ctx.Hist("history-column", h.name)
 	bits := "-"
 	if len(lessBits) > 0 {
 		bits = string(lessBits)
@@ -1483,7 +1683,7 @@ func c10History(ctx *core.Ctx, r *rand.Rand, reqs *[]string, pend *[]func(string
 	if s.Desc {
 		desc = "1"
 	}
-	req := fmt.Sprintf("optcol %s 1 %s %s %s", ctx.Variant, nf, desc, strings.Join(ops, " "))
+	req := fmt.Sprintf("optcol %s %d %s %s %s", ctx.Variant, h.maxDef, nf, desc, strings.Join(ops, " "))
 	ctx.Case(req, len(ops) > 3)
 	if corrupt != "" {
 		// the history stops here (Less/Page on such a state panic or spin); the state reached so far
@@ -1650,10 +1850,290 @@ func c10RepHistory(ctx *core.Ctx, r *rand.Rand, reqs *[]string, pend *[]func(str
 	})
 }
 
+// ---------------------------------------------------------------- L2: Buffer.configure on nested leaves
+
+// a random schema: groups (required / optional / repeated) up to depth 3 over int32 / int64 / string
+// leaves (required / optional / repeated)
+func c10RandSchemaNode(r *rand.Rand, depth int) parquet.Node {
+	var n parquet.Node
+	if depth == 0 || r.Intn(3) == 0 {
+		switch r.Intn(3) {
+		case 0:
+			n = parquet.Leaf(parquet.Int32Type)
+		case 1:
+			n = parquet.Leaf(parquet.Int64Type)
+		default:
+			n = parquet.String()
+		}
+	} else {
+		g := parquet.Group{}
+		for i, k := 0, 1+r.Intn(3); i < k; i++ {
+			g[string(rune('a'+i))] = c10RandSchemaNode(r, depth-1)
+		}
+		n = g
+	}
+	switch r.Intn(3) {
+	case 0:
+		return parquet.Optional(n)
+	case 1:
+		return parquet.Repeated(n)
+	}
+	return parquet.Required(n)
+}
+
+// c10Conf: what Buffer.configure sets up for the sorting columns of a schema (hook
+// VerifSortedColumnConfig) against the Lean mirror `configure` on the leaf's inherited levels.
+func c10Conf(ctx *core.Ctx, schema *parquet.Schema, r *rand.Rand, reqs *[]string, pend *[]func(string)) {
+	leaves := schema.Columns()
+	if len(leaves) == 0 {
+		return
+	}
+	perm := r.Perm(len(leaves))
+	nk := min(1+r.Intn(3), len(leaves))
+	var sorting []c10Sort
+	for _, li := range perm[:nk] {
+		sorting = append(sorting, c10Sort{Path: leaves[li], Desc: r.Intn(2) == 0, NullsFirst: r.Intn(2) == 0})
+	}
+	var scols []parquet.SortingColumn
+	for _, s := range sorting {
+		scols = append(scols, s.column())
+	}
+	buf := parquet.NewBuffer(schema, parquet.SortingRowGroupConfig(parquet.SortingColumns(scols...)))
+	for k, s := range sorting {
+		leaf, _ := schema.Lookup(s.Path...)
+		own := "required"
+		switch {
+		case leaf.Node.Optional():
+			own = "optional"
+		case leaf.Node.Repeated():
+			own = "repeated"
+		}
+		wrap, reversed, ord, ok := parquet.VerifSortedColumnConfig(buf, k)
+		canon := fmt.Sprintf("bufconf %s | %s", schema.String(), s.String())
+		inherited := (leaf.MaxDefinitionLevel > 0 || leaf.MaxRepetitionLevel > 0) && own == "required"
+		ctx.Case(canon, inherited)
+		ctx.Hist("configure-leaf", fmt.Sprintf("own=%s maxRep=%d maxDef=%d", own, min(leaf.MaxRepetitionLevel, 2), min(leaf.MaxDefinitionLevel, 3)))
+		if !ok {
+			ctx.Fail("L2", "sorted-column-missing", "Buffer.configure did not register a sorting column that exists in the schema",
+				map[string]any{"schema": schema.String(), "sorting": fmt.Sprint(sorting), "k": k})
+			continue
+		}
+		rev := 0
+		if reversed {
+			rev = 1
+		}
+		got := fmt.Sprintf("ok wrap=%s reversed=%d ord=%s", wrap, rev, ord)
+		d, nf := 0, 0
+		if s.Desc {
+			d = 1
+		}
+		if s.NullsFirst {
+			nf = 1
+		}
+		*reqs = append(*reqs, fmt.Sprintf("bufconf %d %d 1 %d %d", leaf.MaxRepetitionLevel, leaf.MaxDefinitionLevel, d, nf))
+		sc, path := schema.String(), s.String()
+		*pend = append(*pend, func(ans string) {
+			if ans != got {
+				ctx.Fail("L2", "buffer-configure-mirror "+own+"-leaf", "what Buffer.configure set up for a sorting column (buffer kind, reversed wrapper, null ordering) differs from the Lean mirror on the leaf's inherited levels",
+					map[string]any{"schema": sc, "sorting_column": path, "max_repetition_level": leaf.MaxRepetitionLevel, "max_definition_level": leaf.MaxDefinitionLevel,
+						"impl": got, "model": ans, "variant": ctx.Variant})
+			}
+		})
+	}
+}
+
+// ---------------------------------------------------------------- L1 + L2: sorting writer call histories
+
+type c10K struct {
+	K int64 `parquet:"k"`
+	V int64 `parquet:"v"`
+}
+
+// a sorting writer call history: per round the calls "w:<k;k;…>" (Write of rows with these keys),
+// "r:<k;k;…>" (WriteRows), "f" (Flush); a round ends with Close, the next starts with Reset
+type c10CutCase struct {
+	SortRowCount int        `json:"sort_row_count"`
+	Dedupe       bool       `json:"drop_duplicated_rows"`
+	Rounds       [][]string `json:"rounds"`
+	Abandon      []bool     `json:"abandoned_rounds,omitempty"` // the round ends with Reset alone (no Close): its rows are discarded
+}
+
+// c10Cuts: a history of Write / WriteRows / Flush calls on a SortingWriter: the rows of every
+// temporary row group (hook) against the Lean mirror of the writeRows loop (L2), and the output
+// against the property (L1: sorted permutation; with duplicate dropping one row per key).
+func c10Cuts(ctx *core.Ctx, r *rand.Rand, reqs *[]string, pend *[]func(string)) {
+	cs := &c10CutCase{SortRowCount: []int{1, 2, 3, 4, 7, 8, 9, 16, 17, 64}[r.Intn(10)], Dedupe: r.Intn(3) == 0}
+	nkeys := []int{2, 5, 1000}[r.Intn(3)]
+	// the writer is reused through Reset for a second, independent history in one case out of four
+	rounds := 1
+	if r.Intn(4) == 0 {
+		rounds = 2
+	}
+	for round := 0; round < rounds; round++ {
+		var calls []string
+		for i, k := 0, 1+r.Intn(8); i < k; i++ {
+			if r.Intn(4) == 0 {
+				calls = append(calls, "f")
+				continue
+			}
+			nb := []int{0, 1, 2, 3, 5, 8, 9, 17, 40, 130}[r.Intn(10)]
+			ks := make([]string, nb)
+			for j := range ks {
+				ks[j] = fmt.Sprint(r.Intn(nkeys))
+			}
+			calls = append(calls, []string{"w:", "r:"}[r.Intn(2)]+strings.Join(ks, ";"))
+		}
+		cs.Rounds = append(cs.Rounds, calls)
+		cs.Abandon = append(cs.Abandon, round+1 < rounds && r.Intn(2) == 0)
+	}
+	c10CutsRun(ctx, cs, reqs, pend)
+}
+
+func c10CutsRun(ctx *core.Ctx, cs *c10CutCase, reqs *[]string, pend *[]func(string)) {
+	out := new(bytes.Buffer)
+	w := parquet.NewSortingWriter[c10K](out, int64(cs.SortRowCount),
+		parquet.SortingWriterConfig(parquet.SortingColumns(parquet.Ascending("k")), parquet.DropDuplicatedRows(cs.Dedupe)))
+	schema := w.Schema()
+	for round, calls := range cs.Rounds {
+		if round > 0 {
+			out = new(bytes.Buffer)
+			w.Reset(out)
+			ctx.Hist("sorting-writer-call", "Reset")
+		}
+		detail := func() map[string]any {
+			return map[string]any{"cuts": cs, "round": round, "variant": ctx.Variant}
+		}
+		var ops []string // the calls as the Lean op reads them
+		var written []c10K
+		fail := ""
+		for _, call := range calls {
+			if fail != "" {
+				break
+			}
+			if call == "f" {
+				ops = append(ops, "f")
+				ctx.Hist("sorting-writer-call", "Flush")
+				if err := w.Flush(); err != nil {
+					fail = "Flush: " + err.Error()
+				}
+				continue
+			}
+			var batch []c10K
+			if len(call) > 2 {
+				for _, t := range strings.Split(call[2:], ";") {
+					var k int64
+					fmt.Sscan(t, &k)
+					batch = append(batch, c10K{K: k, V: int64(round)*100000 + int64(len(written)+len(batch))}) // V: unique per writer
+				}
+			}
+			written = append(written, batch...)
+			ops = append(ops, "w:"+call[2:])
+			var err error
+			var n int
+			if call[0] == 'w' {
+				ctx.Hist("sorting-writer-call", "Write")
+				n, err = w.Write(batch)
+			} else {
+				ctx.Hist("sorting-writer-call", "WriteRows")
+				rows := make([]parquet.Row, len(batch))
+				for j := range batch {
+					rows[j] = schema.Deconstruct(nil, &batch[j])
+				}
+				n, err = w.WriteRows(rows)
+			}
+			if err != nil {
+				fail = "write: " + err.Error()
+			} else if n != len(batch) {
+				fail = fmt.Sprintf("write of %d rows returned %d", len(batch), n)
+			}
+		}
+		req := fmt.Sprintf("swcuts %d %d %s", cs.SortRowCount, map[bool]int{false: 0, true: 1}[cs.Dedupe], strings.Join(ops, " "))
+		ctx.Case(fmt.Sprintf("%s | round %d of %v %v", req, round, cs.Rounds, cs.Abandon), len(ops) > 2)
+		ctx.Hist("sort-run-rows", fmt.Sprint(cs.SortRowCount))
+		if fail == "" && round < len(cs.Abandon) && cs.Abandon[round] {
+			ctx.Hist("sorting-writer-call", "Reset without Close")
+			continue // the next round's output must hold that round's rows only
+		}
+		if fail == "" {
+			if err := w.Flush(); err != nil { // what Close starts with
+				fail = "Flush: " + err.Error()
+			}
+		}
+		if fail != "" {
+			ctx.Fail("L1", "sorting-writer-call-error", "a Write/WriteRows/Flush call on a sorting writer failed: "+fail, detail())
+			return
+		}
+		runs, buffered := parquet.VerifSortingWriterRuns(w)
+		got := fmt.Sprintf("ok runs=%s buf=%d", core.JoinInts(runs), buffered)
+		if reqs != nil {
+			*reqs = append(*reqs, req)
+			*pend = append(*pend, func(ans string) {
+				if ans != got {
+					d := detail()
+					d["impl"], d["model"] = got, ans
+					ctx.Fail("L2", "sorting-writer-runs-mirror", "the rows per temporary row group of the sorting writer differ from the Lean mirror of writeRows/Flush", d)
+				}
+			})
+		}
+		// L1 on the output
+		if err := w.Close(); err != nil {
+			ctx.Fail("L1", "sorting-writer-call-error", "Close failed: "+err.Error(), detail())
+			return
+		}
+		var got1 []c10K
+		if len(written) > 0 || out.Len() > 0 {
+			rd := parquet.NewGenericReader[c10K](bytes.NewReader(out.Bytes()))
+			got1 = make([]c10K, rd.NumRows())
+			if n, err := rd.Read(got1); n != len(got1) || (err != nil && err != io.EOF) {
+				ctx.Fail("L1", "sorting-writer-call-error", fmt.Sprintf("reading the output back: %d of %d rows, %v", n, len(got1), err), detail())
+				return
+			}
+			rd.Close()
+		}
+		bad := ""
+		for i := 0; i+1 < len(got1); i++ {
+			if got1[i].K > got1[i+1].K || (cs.Dedupe && got1[i].K == got1[i+1].K) {
+				bad = fmt.Sprintf("rows %d and %d are out of order (or duplicate keys remain): k=%d, k=%d", i, i+1, got1[i].K, got1[i+1].K)
+				break
+			}
+		}
+		if bad == "" {
+			in := map[c10K]int{}
+			inKeys := map[int64]bool{}
+			for _, x := range written {
+				in[x]++
+				inKeys[x.K] = true
+			}
+			outKeys := map[int64]bool{}
+			for _, x := range got1 {
+				if in[x] == 0 {
+					bad = fmt.Sprintf("row out {k=%d v=%d} was never written to this output (or comes out twice)", x.K, x.V)
+					break
+				}
+				in[x]--
+				outKeys[x.K] = true
+			}
+			if bad == "" && !cs.Dedupe && len(got1) != len(written) {
+				bad = fmt.Sprintf("%d rows written, %d rows out", len(written), len(got1))
+			}
+			if bad == "" && cs.Dedupe && len(outKeys) != len(inKeys) {
+				bad = fmt.Sprintf("%d keys written, %d keys remain", len(inKeys), len(outKeys))
+			}
+		}
+		if bad != "" {
+			d := detail()
+			d["out"] = fmt.Sprint(got1)
+			ctx.Fail("L1", "sorting-writer-history "+map[bool]string{false: "order-or-permutation", true: "dedupe"}[cs.Dedupe],
+				"after a history of Write/WriteRows/Flush calls and Close: "+bad, d)
+			return
+		}
+	}
+}
+
 // ---------------------------------------------------------------- entry point
 
 func RunC10(ctx *core.Ctx) {
-	ctx.SetRule("L1: sort.Sort on GenericBuffer[T], Buffer, RowBuffer[T] and SortingWriter[T] Close, each through its typed Write and through its []Row entry point (WriteRows; the rows are lent from producer memory that is reused and overwritten after every call) over four struct schemas (required / optional pointer / optional zero-is-null / nested optional group / repeated leaves, also repeated leaves placed before the required key columns), 0-3 sorting columns x asc/desc x nulls first/last, null and value runs of length 1,2,3,7,8,9,15,16,17,64,65, small alphabets (duplicates), write batches around 8 and 64, optional second phase (write more, sort again); L2: broadcastRangeInt32 for lengths 0..40,63..65,127..129,255,257 x 17 bases, and write/Swap/Less/Page histories on one optional column against the Lean OptCol mirror and on one repeated column against the RepCol mirror. Distinct by canonical input; non-trivial = some nullable sorting column holds both nulls and values (L1), run length >= 8 not a multiple of 8 (kernel), more than 3 ops (history)")
+	ctx.SetRule("L1: sort.Sort on GenericBuffer[T], Buffer, RowBuffer[T] and SortingWriter[T] Close, each through its typed Write and through its []Row entry point (WriteRows; the rows are lent from producer memory that is reused and overwritten after every call) over five struct schemas (required / optional pointer / optional zero-is-null / nested optional group / repeated leaves, also repeated leaves placed before the required key columns; required and optional leaves below two optional groups, below a repeated group and below a required group), 0-3 sorting columns x asc/desc x nulls first/last, null and value runs of length 1,2,3,7,8,9,15,16,17,64,65, small alphabets (duplicates), write batches around 8 and 64, explicit Flush() calls between the writes of a sorting writer, optional second phase (write more, sort again); Write/WriteRows/Flush/Close histories on a sorting writer with sort runs of 1..64 rows, the writer reused through Reset (after Close, or abandoning the rows written so far) for a second history; L2: broadcastRangeInt32 for lengths 0..40,63..65,127..129,255,257 x 17 bases, and write/Swap/Less/Page histories on one optional column against the Lean OptCol mirror (flat, and as required / optional leaf of an optional group with nulls at every level below the maximum) and on one repeated column against the RepCol mirror; what Buffer.configure sets up (buffer kind, reversed wrapper, null ordering function) for every leaf of the static schemas and of random schemas nested up to depth 4 against the Lean mirror `configure`; the rows per temporary row group of the sorting writer against the Lean mirror of the writeRows loop. Distinct by canonical input; non-trivial = some nullable sorting column holds both nulls and values (L1), run length >= 8 not a multiple of 8 (kernel), more than 3 ops (history), a required leaf with inherited levels (configure), more than 2 calls (sorting writer history)")
 	d := ctx.Driver()
 	if ctx.Replay != "" {
 		c10Guard(ctx, "panic-in-replay", "replaying a recorded case panicked", func() map[string]any { return map[string]any{"file": ctx.Replay} },
@@ -1675,6 +2155,59 @@ func RunC10(ctx *core.Ctx) {
 				func() { c10ReplayFile(ctx, f) })
 		}
 	}
+	// 2b. the round-3 L2 ties, on their own driver, concurrently with the histories above and the L1 cases
+	var extras sync.WaitGroup
+	extras.Add(1)
+	go func() {
+		defer extras.Done()
+		d2 := ctx.Driver()
+		var reqs []string
+		var pend []func(string)
+		// … on a required / optional leaf of an optional group (null at levels below the maximum)
+		rn := ctx.Rand("c10-nested-history")
+		for i, n := 0, ctx.Scale(1500, 9000); i < n; i++ {
+			c10Guard(ctx, "panic-in-optional-buffer-history", "a write/Swap/Less/Page history panicked outside its guarded operations", nil,
+				func() { c10HistoryNested(ctx, rn, &reqs, &pend) })
+			if len(reqs) >= 2000 {
+				c06Flush(ctx, d2, &reqs, &pend)
+			}
+		}
+		c06Flush(ctx, d2, &reqs, &pend)
+		// … Buffer.configure on the leaves of the static schemas and of random nested schemas
+		rc := ctx.Rand("c10-configure")
+		static := []*parquet.Schema{parquet.SchemaOf(new(c10A)), parquet.SchemaOf(new(c10B)), parquet.SchemaOf(new(c10C)),
+			parquet.SchemaOf(new(c10D)), parquet.SchemaOf(new(c10E)), parquet.SchemaOf(new(c10Nest1)), parquet.SchemaOf(new(c10Nest2))}
+		for i, n := 0, ctx.Scale(2000, 12000); i < n; i++ {
+			c10Guard(ctx, "panic-in-buffer-configure", "NewBuffer on a nested schema with sorting columns panicked", nil, func() {
+				var schema *parquet.Schema
+				if i < 40*len(static) {
+					schema = static[i%len(static)]
+				} else {
+					g := parquet.Group{}
+					for j, k := 0, 1+rc.Intn(3); j < k; j++ {
+						g[string(rune('p'+j))] = c10RandSchemaNode(rc, 3)
+					}
+					schema = parquet.NewSchema("s", g)
+				}
+				c10Conf(ctx, schema, rc, &reqs, &pend)
+			})
+			if len(reqs) >= 2000 {
+				c06Flush(ctx, d2, &reqs, &pend)
+			}
+		}
+		c06Flush(ctx, d2, &reqs, &pend)
+		// … and the run cuts of the sorting writer over Write/WriteRows/Flush histories
+		rw := ctx.Rand("c10-sorting-writer-history")
+		for i, n := 0, ctx.Scale(1000, 6000); i < n; i++ {
+			c10Guard(ctx, "panic-in-sorting-writer-history", "a Write/WriteRows/Flush/Close history on a sorting writer panicked", nil,
+				func() { c10Cuts(ctx, rw, &reqs, &pend) })
+			if len(reqs) >= 1000 {
+				c06Flush(ctx, d2, &reqs, &pend)
+			}
+		}
+		c06Flush(ctx, d2, &reqs, &pend)
+	}()
+	defer extras.Wait()
 	// 2. L2 histories
 	{
 		r := ctx.Rand("c10-history")
